@@ -449,7 +449,7 @@ fn gen_case(rng: &mut Prng) -> Value {
     }
 
     // ---- impact: every combination of action x where the draft rule's id already lives x same / different source
-    let impact: Value = if rng.chance(4, 5) {
+    let mut impact: Value = if rng.chance(4, 5) {
         let action = *rng.pick(&["add", "update", "delete", "add", "update", "delete", "nope"]);
         let cat = rng.below(5); // 0 new id, 1 in base only, 2 in change_set.added, 3 in change_set.updated (and base), 4 in change_set.deleted (and base)
         let old_shape = random_shape(rng);
@@ -562,6 +562,38 @@ fn gen_case(rng: &mut Prng) -> Value {
         Value::Null
     };
 
+    // ---- siblings in ONE innermost bucket (seed r8f-2): two base rules with the same triggers — same static (or marker) path below
+    // the same date-time condition group — of which one is the rule under impact analysis with update / delete.  The incremental
+    // family removes that rule from an `apply_change_set` router by `Router::remove`; a per-layer counter that is wrong by then
+    // (only `batch_remove` + `remove` in this order shows it) prunes the bucket with the sibling still inside.
+    let mut sibling_probe: Option<Value> = None;
+    if rng.chance(1, 6) {
+        let n = base.len();
+        let shape = random_shape(rng);
+        let mut a = gen_versioned(rng, &format!("r{n}"), "sibA", shape);
+        let mut b = gen_versioned(rng, &format!("r{}", n + 1), "sibB", shape);
+        let with_window = rng.chance(3, 4);
+        for r in [&mut a, &mut b] {
+            if with_window {
+                r["source"]["datetime"] = json!([["1999-01-01T00:00:00Z", "2001-01-01T00:00:00Z"]]);
+            }
+        }
+        let mut ex_b = example_for(rng, &b);
+        let mut ex_a = example_for(rng, &a);
+        if with_window {
+            ex_b["datetime"] = json!("2000-06-01T00:00:00Z");
+            ex_a["datetime"] = json!("2000-06-01T00:00:00Z");
+        }
+        b["examples"] = json!([ex_b.clone()]);
+        let draft_shape = different_shape(rng, shape);
+        let mut draft = if rng.chance(1, 2) { a.clone() } else { gen_versioned(rng, &format!("r{n}"), "sibDraft", draft_shape) };
+        draft["examples"] = json!([ex_b.clone(), ex_a]);
+        base.push(a);
+        base.push(b);
+        impact = json!({"rule": draft, "action": *rng.pick(&["update", "delete", "update", "delete", "add"]), "with_loop": rng.chance(1, 2), "cat": "base", "same_source": true, "siblings": true});
+        sibling_probe = Some(ex_b);
+    }
+
     let np = rng.below(3) + 1;
     let mut probes: Vec<Value> = (0..np)
         .map(|_| {
@@ -573,6 +605,9 @@ fn gen_case(rng: &mut Prng) -> Value {
         .collect();
     // requests that a superseded / deleted version matched
     for p in old_probes.into_iter().take(2) {
+        probes.push(p);
+    }
+    if let Some(p) = sibling_probe {
         probes.push(p);
     }
     // the start and one inner url of the conditional chain, with the backend code the chain is conditioned on
